@@ -178,6 +178,10 @@ where
     }
 
     fn fetch_n(&self, n: usize) -> Option<NextChunk<T, impl ExactSizeIterator<Item = T>>> {
+        if n == 0 {
+            // nothing is requested: nothing is yielded and the iterator is left unchanged
+            return None;
+        }
         self.progress_and_get_begin_idx(n).and_then(|begin_idx| {
             let guard = self.complete_on_unwind();
             // SAFETY: no other thread has the valid condition to iterate, they are waiting
